@@ -215,6 +215,8 @@ pub struct TransferStats {
     pub meshes_served: Vec<Uuid>,
     pub images_served: Vec<Uuid>,
     pub audios_served: Vec<Uuid>,
+    /// downloads requested and not yet applied: (class 0 mesh / 1 image / 2 audio, id, downloads under way)
+    pub pending: Vec<(u8, Uuid, usize)>,
 }
 
 pub fn transfer_stats(world: &World) -> Option<TransferStats> {
